@@ -62,13 +62,13 @@ CHECKS = {
         'note': ORACLE + ' Constants of dependencies are out of scope.',
     },
     'C13': {
-        'technique': 'runtime monitoring: conjunction-of-single-verification reference checker over recorded batch-verification histories (permutation, duplication, repetition)',
-        'text': 'Batches of honest signatures at sizes on both sides of the Straus/Pippenger (190 terms) and window switches, with none/one(first,middle,last)/many/all entries corrupted in message, key, R, S, S+l, off-curve R, each batch also shuffled, with a duplicated entry, and called twice; slice-length mismatches; under every forced dispatch target. Expected = conjunction of the single-verification predicate.',
+        'technique': 'runtime monitoring: conjunction-of-single-verification reference checker over recorded batch-verification histories (permutation, duplication, repetition); observer hook on the batch coefficients z_i feeding an adaptive forgery workload and a sensitivity monitor',
+        'text': 'Batches of honest signatures at sizes on both sides of the Straus/Pippenger (190 terms) and window switches, with none/one(first,middle,last)/many/all entries corrupted in message, key, R, S, S+l, off-curve R, each batch also shuffled, with a duplicated entry, and called twice; slice-length mismatches; under every forced dispatch target. Expected = conjunction of the single-verification predicate. A guarded hook shows the monitor the coefficients z_i of every call: they must be nonzero, pairwise distinct, repeatable and move whenever one component (message, key, R, S) of one entry changes; an attacker reading them shifts two S values so that sum z_i S_i is unchanged (both signatures individually invalid) and the batch must still reject.',
         'note': ORACLE + ' A false accept needs a 2^-128 event and is ignored.',
     },
     'C14': {
         'technique': 'runtime monitoring: instrumenting global allocator (dealloc-content log compared across runs differing only in the secret) + drop monitor (bytes of storage after drop_in_place)',
-        'text': 'The driver\'s global allocator snapshots every block at dealloc inside constant-time multiscalar multiplication and scalar batch inversion; logs (size, content) must be identical across runs that differ only in the secret scalars, for each forced backend copy. Secret-holding types are built in ManuallyDrop storage, used, dropped in place, and their storage searched for the secret and its derived forms; explicit zeroize results are checked.',
+        'text': 'The driver\'s global allocator snapshots every block at dealloc inside constant-time multiscalar multiplication and scalar batch inversion; logs (size, content) must be identical across runs that differ only in the secret scalars, for each forced backend copy. Secret-holding types are built in ManuallyDrop storage, used, dropped in place, and their storage searched for the secret and its derived forms; explicit zeroize results are checked. The heap part is repeated with the caller\'s point or scalar iterator panicking at the first / middle / last element (unwinding caught inside the measured region) and with zeros among the inversion inputs.',
         'note': 'Release profile (the optimiser is what might elide a wipe). Stack copies and registers are out of scope (the README disclaims them too).',
     },
     'C15': {
